@@ -224,8 +224,13 @@ fn node_scenario(ctx: &Ctx, idx: u64) -> Report {
             let mut opts = BedOpts::random(&mut rng);
             opts.read_only = false;
             opts.world_size = *[0usize, 3, 30].choose(&mut rng).unwrap();
+            // valid traffic is hostile too: the network duplicates datagrams (also the answers to the
+            // node's own bootstrap / refresh / search queries), half of the copies back to back
+            opts.dup_p = *[0.0, 0.2, 0.5].choose(&mut rng).unwrap();
             let mut bed = Bed::new(seed ^ run as u64, &mut rng, &opts).await;
             report.evaluations += 1;
+            // API calls racing the deliveries (other threads of the application)
+            let hammer = crate::world::api_hammer(&bed.net, &bed.dht, bed.addr, seed ^ run as u64, 0.05, 400);
             let world_addrs: Vec<std::net::SocketAddr> = bed.world.lock().unwrap().nodes.iter().map(|n| n.addr).collect();
             for batch in 0..batches {
                 // a search may be running while the garbage arrives
@@ -260,6 +265,11 @@ fn node_scenario(ctx: &Ctx, idx: u64) -> Report {
                     }
                 }
                 sleep_us(50 * MS).await;
+                if rng.gen_bool(0.5) {
+                    // let the node's own periodic work (re-bootstrap every ~5 s on small tables,
+                    // refresh every 6 s) run between batches, over the duplicating network
+                    sleep_us(rng.gen_range(SEC..12 * SEC)).await;
+                }
                 // ---- liveness after the batch
                 let c = bed.client(bed.v6, 2);
                 let ping = Krpc::query(b"live", gen::rand_id(&mut rng), Query::Ping);
@@ -294,7 +304,20 @@ fn node_scenario(ctx: &Ctx, idx: u64) -> Report {
                     }
                 }
             }
-            let _ = SEC;
+            {
+                let st = hammer.lock().unwrap();
+                report.add("api_calls_racing_deliveries", st.calls);
+                if let Some((t, what)) = st.failed.first() {
+                    report.violation(
+                        "C14",
+                        "node-stopped-serving",
+                        format!("an API call issued while datagrams were being delivered did not complete at {} ms: {what}; panics seen: {:?}", t / MS, crate::runner::take_panics().iter().take(2).collect::<Vec<_>>()),
+                        info.clone(),
+                    );
+                    return report;
+                }
+            }
+            report.add("datagrams_duplicated_by_the_network", bed.net.log().iter().filter(|w| w.ev == crate::simnet::Ev::Deliver).count() as u64 - bed.net.log().iter().filter(|w| w.ev == crate::simnet::Ev::Deliver).map(|w| w.id).collect::<std::collections::HashSet<_>>().len() as u64);
             crate::wiremon::always_on(&mut report, &bed.net, &[bed.addr], &info);
         }
         report
@@ -312,7 +335,7 @@ pub fn check(tier: Tier) -> Check {
                plus systematic sweeps (every truncation offset, every class at every node position, every \
                magnitude) for some messages. Each input is decoded in a supervised worker process on a \
                2 MiB stack under a counting allocator and panic hook. Stream node: serving nodes (tables \
-               filled from worlds of 0/3/30 nodes) receive batches of 5..60 such datagrams from fresh and \
+               filled from worlds of 0/3/30 nodes, on a network that duplicates 0/20/50 % of all datagrams, half of the copies back to back, with bursts of API calls issued in the instant of a delivery) receive batches of 5..60 such datagrams from fresh and \
                spoofed contact addresses of both families, interleaved with valid queries and running \
                searches; after every batch a ping must be answered exactly once, get_state / load_contacts / \
                local_addr must complete and started searches must end. distinct_nontrivial = distinct \
@@ -335,6 +358,8 @@ pub fn check(tier: Tier) -> Check {
             ("hostile_datagrams_injected_into_a_node", tier.pick(20_000, 1_000_000)),
             ("node_liveness_probes", tier.pick(800, 40_000)),
             ("searches_completed_under_garbage", tier.pick(100, 5_000)),
+            ("datagrams_duplicated_by_the_network", tier.pick(2_000, 50_000)),
+            ("api_calls_racing_deliveries", tier.pick(2_000, 50_000)),
         ],
         exhaustive: false,
     }
